@@ -71,8 +71,8 @@ PROPS["C06"] = dict(
 )
 
 PROPS["C10"] = dict(
-    groups=[],
-    lean_props=["SeaQ.Props.C10"],
+    groups=["token", "escape", "quote", "spell"],
+    lean_props=["SeaQ.Props.C10", "SeaQ.Props.C10Stmt"],
     lean_obligations=[],
     technique="Lean 4 proof (invariant by induction over call histories) over a hand-written state-machine model of InsertStatement::columns/values/select_from/or_default_values and the branch structure of prepare_insert_statement; model tied by ALL call histories up to length 4/5 plus random longer ones against the real crate (outcomes, == after rejection, INSERT shape parsed back from the SQL on 3 backends)",
     level_text="Machine-checked proof, for every state and every row, that values()/select_from() succeed iff the lengths match, that a mismatch returns the error with both counts and leaves the state unchanged, that accepted rows are appended in call order and rejected rows leave no trace, and — by induction over arbitrary call histories — that every stored row matches the column list unless columns() is re-declared with a different count over stored rows (that exception is a recorded finding: rect_counterexample, reproduced on the real crate each run).",
